@@ -102,6 +102,17 @@ TABLE = {
         "object's behaviour; zero-cost levels are a recorded finding.",
         "6/C06",
     ),
+    "C02": (
+        "model_checking",
+        "exact recovery of the map uniform -> state (complete lattice probing / bisection to 1 ulp) for every sampler x every target of the lattice + explicit-state BFS over draw histories",
+        "The samplers are deterministic piecewise-constant maps of the uniform they consume; their law is recovered exactly "
+        "(integer lattice counts for all weak compositions, partition recovery for factory-built chain samplers in 1, 2 and "
+        "3 dimensions, integer bisection over the 32-bit argument of the table method), compared with the target, and the "
+        "dependence on earlier draws is searched breadth-first on one sampler object.",
+        "Partition recovery assumes no piece hidden strictly between two agreeing probes of the initial sweep (end points "
+        "and alias column edges are probed explicitly); target masses are the library's own mass() on reference cells.",
+        "6/C02",
+    ),
 }
 
 READY = []  # filled from checks/ below; a module must define PID
